@@ -840,12 +840,115 @@ Proof. induction l; intros h j; cbn; auto. Qed.
 Lemma ents_of_none : forall l, ents_of (map ev_of_pair (map (fun es : list N => (es, @None tokens)) l)) = concat l.
 Proof. induction l; cbn; auto. now rewrite IHl. Qed.
 
+Lemma replay_no_append : forall evs h j, no_append evs -> replay evs h j = (h, last_tok evs j).
+Proof.
+  induction evs as [|e evs IH]; intros h j H; cbn [replay last_tok]; auto.
+  destruct e as [k vs|es [t|]]; cbn in H; [destruct H| |]; apply IH; auto.
+Qed.
+
+Lemma last_tok_app : forall a b j, last_tok (a ++ b) j = last_tok b (last_tok a j).
+Proof.
+  induction a as [|e a IH]; intros b j; cbn [app last_tok]; auto. destruct e as [k vs|es [t|]]; apply IH.
+Qed.
+
+Lemma no_append_app : forall a b, no_append (a ++ b) <-> no_append a /\ no_append b.
+Proof.
+  induction a as [|e a IH]; intros b; cbn [app no_append]; [tauto|]. destruct e; [tauto|apply IH].
+Qed.
+
+Lemma insert_mid_spec : forall evs k e evs' ins, insert_mid evs k e = (evs', ins) ->
+  (ins = false /\ evs' = evs) \/ (ins = true /\ exists e1 e2, evs = e1 ++ e2 /\ evs' = e1 ++ e :: e2).
+Proof.
+  induction evs as [|a evs IH]; intros k e evs' ins H; cbn [insert_mid] in H.
+  - injection H as <- <-. now left.
+  - assert (Hskip : forall k', insert_mid evs k' e = (fst (insert_mid evs k' e), snd (insert_mid evs k' e)))
+      by (intros; destruct (insert_mid evs k' e); reflexivity).
+    assert (Hrec : forall k' r' i, insert_mid evs k' e = (r', i) -> evs' = a :: r' -> ins = i ->
+              (ins = false /\ evs' = a :: evs) \/ (ins = true /\ exists e1 e2, a :: evs = e1 ++ e2 /\ evs' = e1 ++ e :: e2)).
+    { intros k' r' i Hi -> ->. destruct (IH _ _ _ _ Hi) as [[-> ->]|(-> & e1 & e2 & -> & ->)]; [now left|].
+      right. split; auto. exists (a :: e1), e2. auto. }
+    destruct a as [d vs|[|x es] t].
+    + destruct (insert_mid evs k e) as [r' i] eqn:E. injection H as <- <-. eapply Hrec; eauto.
+    + destruct (insert_mid evs k e) as [r' i] eqn:E. injection H as <- <-. eapply Hrec; eauto.
+    + destruct k as [|k'].
+      * injection H as <- <-. right. split; auto. exists [EvCall (x :: es) t], evs. auto.
+      * destruct (insert_mid evs k' e) as [r' i] eqn:E. injection H as <- <-. eapply Hrec; eauto.
+Qed.
+
+(** what a full-sync run does, whatever the sink failure *)
+Lemma full_run_facts : forall v c h job (full : bool) b fail core evs ok,
+  f_wm v = WmOwn -> c_latest c = false -> (1 <= b)%nat ->
+  (if full then @None tokens else job) = None ->
+  run_events v c h job full b fail core = (evs, ok) ->
+  no_append evs /\
+  (last_tok evs job = job \/
+   exists tkf, last_tok evs job = Some tkf /\ tok_ok tkf /\
+               (forall dp, In dp (c_deps c) -> dtok tkf (d_ds dp) = lenz (feed_of h (d_ds dp))) /\
+               (forall m, main_live h (c_main c) m = true -> In m (ents_of evs))).
+Proof.
+  intros v c h job full b fail core evs ok Hw Hl Hb Ej Er. unfold run_events in Er. rewrite Ej in Er.
+  destruct (full_pages c h b (fuel_of h c) 0) as [ps fin] eqn:Ef.
+  apply cut_calls_prefix in Er. destruct Er as (l1 & l2 & Hsp & -> & _).
+  split; [apply no_append_pairs|].
+  destruct l2 as [|e2 l2].
+  - right. rewrite app_nil_r in Hsp. subst l1. rewrite map_app. cbn [map ev_of_pair fst snd].
+    set (tkf := mkTok fin (wm_tokens v c h core)). exists tkf.
+    destruct (wm_tokens_own v c h core Hw) as [Hwm Hwm0].
+    destruct (full_pages_complete c h b Hl Hb (fuel_of h c) 0 ps fin ltac:(lia)
+                ltac:(unfold fuel_of, lenz; lia) Ef) as [Hfin Hall].
+    split; [clear; induction ps; cbn; auto|]. split; [split; [exact Hwm0|exact Hfin]|]. split.
+    + intros dp Hdp. unfold dtok, tkf. cbn [t_deps]. exact (Hwm dp Hdp).
+    + intros m Hm. rewrite ents_of_app, ents_of_none. apply in_or_app. left.
+      apply main_live_In in Hm. apply in_map_iff in Hm. destruct Hm as (y & <- & Hy).
+      apply In_nth_error in Hy. destruct Hy as [i Hi].
+      assert (Hnz : nthz (feed_of h (c_main c)) (Z.of_nat i) = Some y).
+      { clear - Hi. revert i Hi. induction (feed_of h (c_main c)) as [|z f IH]; intros [|i] Hi; cbn in Hi; try discriminate.
+        - injection Hi as ->. reflexivity.
+        - rewrite nthz_cons by lia. replace (Z.of_nat (S i) - 1) with (Z.of_nat i) by lia. auto. }
+      apply (Hall (Z.of_nat i) y); [lia|exact Hnz].
+  - left. apply app_last_split in Hsp; [|discriminate]. destruct Hsp as (l2' & _ & Hps).
+    apply map_eq_app' in Hps. destruct Hps as (a1 & a2 & _ & -> & _). apply last_tok_none.
+Qed.
+
+(** a full-sync run, possibly with one foreign write [midl] between two of its sink calls, keeps the invariant *)
+Lemma full_inv : forall c n s tr e1 e2 midl hub',
+  hinv c n s tr -> no_append (e1 ++ e2) ->
+  (last_tok (e1 ++ e2) (s_job s) = s_job s \/
+   exists tkf, last_tok (e1 ++ e2) (s_job s) = Some tkf /\ tok_ok tkf /\
+               (forall dp, In dp (c_deps c) -> dtok tkf (d_ds dp) = lenz (feed_of (s_hub s) (d_ds dp))) /\
+               (forall m, main_live (s_hub s) (c_main c) m = true -> In m (ents_of (e1 ++ e2)))) ->
+  (midl = [] /\ hub' = s_hub s \/ exists ds vs, midl = [EvAppend ds vs] /\ hub' = append_hub (s_hub s) ds vs) ->
+  hinv c n (mkSt hub' (last_tok (e1 ++ e2) (s_job s))) (tr ++ e1 ++ midl ++ e2).
+Proof.
+  intros c n s tr e1 e2 midl hub' [Hrep Hinv] Hna Hf Hmid.
+  apply no_append_app in Hna. destruct Hna as [Hn1 Hn2].
+  assert (Hlen : forall k, lenz (feed_of (s_hub s) k) <= lenz (feed_of hub' k)).
+  { intros k. destruct Hmid as [[_ ->]|(ds & vs & _ & ->)]; [lia|apply lenz_append]. }
+  assert (Hents : forall m, In m (ents_of (e1 ++ e2)) -> In m (ents_of (e1 ++ midl ++ e2))).
+  { intros m Hm. rewrite ents_of_app in Hm. rewrite !ents_of_app. apply in_app_or in Hm. apply in_or_app.
+    destruct Hm; auto. right. apply in_or_app. now right. }
+  split; cbn [s_hub s_job].
+  - rewrite replay_app, Hrep. cbn [fst snd]. rewrite replay_app, (replay_no_append e1) by auto. cbn [fst snd].
+    rewrite last_tok_app. destruct Hmid as [[-> ->]|(ds & vs & -> & ->)]; cbn [app replay];
+      now rewrite replay_no_append.
+  - intros tk Htk. destruct Hf as [Hsame|(tkf & Hlast & Hok & Hd & Hall)].
+    + rewrite Hsame in Htk. destruct (Hinv tk Htk) as (Hok & Hin & Hcov). split; auto. split.
+      * intros dp Hdp. specialize (Hin dp Hdp). specialize (Hlen (d_ds dp)). lia.
+      * intros dp Hdp p Hr. apply covered_mono. auto.
+    + rewrite Hlast in Htk. injection Htk as <-. split; auto. split.
+      * intros dp Hdp. rewrite (Hd dp Hdp). apply Hlen.
+      * intros dp Hdp p Hr. rewrite (Hd dp Hdp) in Hr.
+        destruct (nthz_some (feed_of (s_hub s) (d_ds dp)) p Hr) as [x Hx].
+        exists tr, (e1 ++ midl ++ e2), [], (s_hub s), (s_job s), x.
+        split; [now rewrite app_nil_r|]. split; [exact Hrep|]. split; [exact Hx|]. right. auto.
+Qed.
+
 Lemma step_inv : forall v c n s tr o s' evs ok,
-  sound v -> c_latest c = false -> batch_ok o -> hinv c n s tr ->
+  sound v -> c_latest c = false -> batch_ok c o -> hinv c n s tr ->
   step v c s o = (s', evs, ok) -> hinv c n s' (tr ++ evs).
 Proof.
-  intros v c n s tr o s' evs ok (Hs & Hp & Hw) Hl Hb [Hrep Hinv] H.
-  destruct o as [k vs|full b fail core]; cbn [step] in H.
+  intros v c n s tr o s' evs ok (Hs & Hp & Hw) Hl Hb Hh H. pose proof Hh as [Hrep Hinv].
+  destruct o as [k vs|full b fail core|b fail core k ds vs]; cbn [step] in H.
   - (* append *)
     injection H as <- <- <-. split; cbn [s_hub s_job].
     + rewrite replay_app, Hrep. reflexivity.
@@ -854,9 +957,9 @@ Proof.
       * intros dp Hdp p Hr. apply covered_mono. auto.
   - destruct (run_events v c (s_hub s) (s_job s) full b fail core) as [evs' ok'] eqn:Er.
     injection H as <- <- <-. cbn [batch_ok] in Hb.
-    unfold run_events in Er.
     destruct (if full then None else s_job s) as [tk|] eqn:Ej.
     + (* incremental *)
+      unfold run_events in Er. rewrite Ej in Er.
       assert (Hj : s_job s = Some tk) by (destruct full; [discriminate|auto]).
       destruct (Hinv tk Hj) as (Hok & Hin & Hcov).
       apply cut_calls_prefix in Er. destruct Er as (l1 & l2 & Hsp & -> & _).
@@ -886,50 +989,29 @@ Proof.
         exists (tr ++ map ev_of_call pre), (map ev_of_call post), [], (s_hub s), (Some (tok_after pre tk)), x.
         split; [rewrite app_nil_r, <- app_assoc, <- map_app, Epp; reflexivity|].
         split; [rewrite replay_app, Hrep; cbn [fst snd]; rewrite Hj; apply replay_calls|].
-        split; [apply no_append_calls|]. split; [exact Hx|].
-        left. exists (tok_after pre tk). split; auto. split; auto.
+        split; [exact Hx|].
+        left. exists (tok_after pre tk). split; [apply no_append_calls|]. split; auto. split; auto.
         intros m Hm. rewrite ents_of_calls. apply Hreq. exists x. auto.
     + (* full sync *)
-      destruct (full_pages c (s_hub s) b (fuel_of (s_hub s) c) 0) as [ps fin] eqn:Ef.
-      apply cut_calls_prefix in Er. destruct Er as (l1 & l2 & Hsp & -> & _).
-      destruct l2 as [|e2 l2].
-      * (* completed *)
-        rewrite app_nil_r in Hsp. subst l1. rewrite map_app. cbn [map ev_of_pair fst snd].
-        set (tkf := mkTok fin (wm_tokens v c (s_hub s) core)).
-        assert (Hlast : forall j, last_tok (map ev_of_pair (map (fun es : list N => (es, @None tokens)) ps) ++ [EvCall [] (Some tkf)]) j = Some tkf).
-        { intros j. clear. induction ps; cbn; auto. }
-        rewrite Hlast. destruct (wm_tokens_own v c (s_hub s) core Hw) as [Hwm Hwm0].
-        destruct (full_pages_complete c (s_hub s) b Hl Hb (fuel_of (s_hub s) c) 0 ps fin ltac:(lia)
-                    ltac:(unfold fuel_of, lenz; lia) Ef) as [Hfin Hall].
-        split; cbn [s_hub s_job].
-        -- rewrite replay_app, Hrep. cbn [fst snd]. rewrite replay_app, replay_none. reflexivity.
-        -- intros tk' Htk'. injection Htk' as <-. split; [split; [exact Hwm0|exact Hfin]|]. split.
-           ++ intros dp Hdp. unfold dtok, tkf. cbn [t_deps]. rewrite (Hwm dp Hdp). lia.
-           ++ intros dp Hdp p Hr. unfold dtok, tkf in Hr. cbn [t_deps] in Hr. rewrite (Hwm dp Hdp) in Hr.
-              destruct (nthz_some (feed_of (s_hub s) (d_ds dp)) p Hr) as [x Hx].
-              exists tr, (map ev_of_pair (map (fun es : list N => (es, @None tokens)) ps) ++ [EvCall [] (Some tkf)]),
-                     [], (s_hub s), (s_job s), x.
-              split; [now rewrite app_nil_r|]. split; [exact Hrep|].
-              split. { clear. induction ps; cbn; auto. }
-              split; [exact Hx|]. right. intros m Hm. rewrite ents_of_app, ents_of_none. apply in_or_app. left.
-              apply main_live_In in Hm. apply in_map_iff in Hm. destruct Hm as (y & <- & Hy).
-              apply In_nth_error in Hy. destruct Hy as [i Hi].
-              assert (Hnz : nthz (feed_of (s_hub s) (c_main c)) (Z.of_nat i) = Some y).
-              { clear - Hi. revert i Hi. induction (feed_of (s_hub s) (c_main c)) as [|z f IH]; intros [|i] Hi; cbn in Hi; try discriminate.
-                - injection Hi as ->. reflexivity.
-                - rewrite nthz_cons by lia. replace (Z.of_nat (S i) - 1) with (Z.of_nat i) by lia. auto. }
-              apply (Hall (Z.of_nat i) y); [lia|exact Hnz].
-      * (* sink failure: no token stored *)
-        apply app_last_split in Hsp; [|discriminate]. destruct Hsp as (l2' & _ & Hps).
-        apply map_eq_app' in Hps. destruct Hps as (a1 & a2 & _ & -> & _).
-        rewrite last_tok_none. split; cbn [s_hub s_job].
-        -- rewrite replay_app, Hrep. cbn [fst snd]. apply replay_none.
-        -- intros tk Hj. destruct (Hinv tk Hj) as (Hok & Hin & Hcov). split; auto. split; auto.
-           intros dp Hdp p Hr. apply covered_mono. auto.
+      destruct (full_run_facts v c (s_hub s) (s_job s) full b fail core evs' ok' Hw Hl Hb Ej Er) as [Hna Hf].
+      pose proof (full_inv c n s tr evs' [] [] (s_hub s) Hh) as G. rewrite !app_nil_r in G. cbn [app] in G.
+      destruct s as [hub job]. apply G; auto.
+  - (* full sync with a foreign write between two sink calls *)
+    destruct (run_events v c (s_hub s) (s_job s) true b fail core) as [evs0 ok0] eqn:Er.
+    destruct (insert_mid evs0 k (EvAppend ds vs)) as [evs1 ins] eqn:Ei.
+    injection H as <- <- <-. cbn [batch_ok] in Hb. destruct Hb as [Hb _].
+    destruct (full_run_facts v c (s_hub s) (s_job s) true b fail core evs0 ok0 Hw Hl Hb eq_refl Er) as [Hna Hf].
+    destruct (insert_mid_spec _ _ _ _ _ Ei) as [[-> ->]|(-> & e1 & e2 & -> & ->)].
+    + pose proof (full_inv c n s tr evs0 [] [] (s_hub s) Hh) as G. rewrite !app_nil_r in G. cbn [app] in G.
+      apply G; auto.
+    + assert (Hl1 : last_tok (e1 ++ EvAppend ds vs :: e2) (s_job s) = last_tok (e1 ++ e2) (s_job s))
+        by (rewrite !last_tok_app; reflexivity).
+      rewrite Hl1. apply (full_inv c n s tr e1 e2 [EvAppend ds vs] (append_hub (s_hub s) ds vs) Hh Hna Hf).
+      right. eauto.
 Qed.
 
 Lemma exec_inv : forall v c n ops s tr s' tr',
-  sound v -> c_latest c = false -> Forall batch_ok ops -> hinv c n s tr ->
+  sound v -> c_latest c = false -> Forall (batch_ok c) ops -> hinv c n s tr ->
   exec v c s ops = (s', tr') -> hinv c n s' (tr ++ tr').
 Proof.
   intros v c n. induction ops as [|o ops IH]; intros s tr s' tr' Hv Hl Hb Hi H; cbn [exec] in H.
@@ -944,7 +1026,7 @@ Proof. intros. split; [reflexivity|]. cbn. discriminate. Qed.
 (** C18_tokens_safe: at every moment of every history (including runs cut short by a failing sink) the
     persisted dependency tokens only cover changes that have been handled. *)
 Theorem tokens_safe : forall v c n ops s tr tk,
-  sound v -> c_latest c = false -> Forall batch_ok ops ->
+  sound v -> c_latest c = false -> Forall (batch_ok c) ops ->
   exec v c (init_state n) ops = (s, tr) -> s_job s = Some tk ->
   forall dp, In dp (c_deps c) -> forall p, 0 <= p < dtok tk (d_ds dp) -> covered c n tr dp p.
 Proof.
@@ -955,7 +1037,7 @@ Qed.
 
 (** C18_complete: once the job has caught up, every change of every dependency dataset has been handled. *)
 Theorem complete : forall v c n ops s tr,
-  sound v -> c_latest c = false -> Forall batch_ok ops ->
+  sound v -> c_latest c = false -> Forall (batch_ok c) ops ->
   exec v c (init_state n) ops = (s, tr) -> caught_up c s ->
   forall dp, In dp (c_deps c) -> forall p, 0 <= p < lenz (feed_of (s_hub s) (d_ds dp)) -> covered c n tr dp p.
 Proof.
@@ -1104,28 +1186,43 @@ Proof.
   rewrite map_app. apply in_or_app. now left.
 Qed.
 
+Lemma step_main : forall v c s0 o s1 e1 ok1,
+  step v c s0 o = (s1, e1, ok1) ->
+  (forall m, In m (ents_of e1) -> In m (main_ids (s_hub s1) c)) /\
+  (forall m, In m (main_ids (s_hub s0) c) -> In m (main_ids (s_hub s1) c)).
+Proof.
+  intros v c s0 o s1 e1 ok1 E1. destruct o as [k vs|full b fail core|b fail core k ds vs]; cbn [step] in E1.
+  - injection E1 as <- <- _. cbn [s_hub]. split; [intros m []|]. intros m. apply main_ids_append.
+  - destruct (run_events v c (s_hub s0) (s_job s0) full b fail core) as [evs ok] eqn:Er.
+    injection E1 as <- <- _. cbn [s_hub]. split; auto. intros m Hm. eapply run_events_main; eauto.
+  - destruct (run_events v c (s_hub s0) (s_job s0) true b fail core) as [evs ok] eqn:Er.
+    destruct (insert_mid evs k (EvAppend ds vs)) as [evs1 ins] eqn:Ei. injection E1 as <- <- _. cbn [s_hub].
+    assert (Hmono : forall m, In m (main_ids (s_hub s0) c) ->
+                              In m (main_ids (if ins then append_hub (s_hub s0) ds vs else s_hub s0) c)).
+    { intros m Hm. destruct ins; auto. now apply main_ids_append. }
+    split; auto. intros m Hm. apply Hmono.
+    destruct (insert_mid_spec _ _ _ _ _ Ei) as [[_ ->]|(_ & a1 & a2 & -> & ->)].
+    + eapply run_events_main; eauto.
+    + eapply run_events_main; eauto. rewrite ents_of_app in *. cbn [ents_of] in Hm. exact Hm.
+Qed.
+
 (** C18_main_only: whatever is handed to the sink, in any run of any history under any variant, is an entity
     of the main dataset (and, when it comes from a dependency, a live one - dep_step_main). *)
 Theorem main_only : forall v c ops s0 s tr,
   exec v c s0 ops = (s, tr) -> forall m, In m (ents_of tr) -> In m (main_ids (s_hub s) c).
 Proof.
-  intros v c. induction ops as [|o ops IH]; intros s0 s tr H m Hm; cbn [exec] in H.
+  intros v c.
+  assert (Hmono : forall ops s1 s2 e2, exec v c s1 ops = (s2, e2) ->
+            forall m, In m (main_ids (s_hub s1) c) -> In m (main_ids (s_hub s2) c)).
+  { induction ops as [|o ops IH]; intros s1 s2 e2 E2 m H1; cbn [exec] in E2.
+    - now injection E2 as <- <-.
+    - destruct (step v c s1 o) as [[s1' e1'] ok1'] eqn:E1. destruct (exec v c s1' ops) as [s2' e2'] eqn:E2'.
+      injection E2 as <- <-. eapply IH; eauto. apply (proj2 (step_main _ _ _ _ _ _ _ E1)). exact H1. }
+  induction ops as [|o ops IH]; intros s0 s tr H m Hm; cbn [exec] in H.
   - injection H as <- <-. destruct Hm.
   - destruct (step v c s0 o) as [[s1 e1] ok1] eqn:E1. destruct (exec v c s1 ops) as [s2 e2] eqn:E2.
     injection H as <- <-. rewrite ents_of_app in Hm. apply in_app_or in Hm. destruct Hm as [Hm|Hm]; [|eauto].
-    assert (H1 : In m (main_ids (s_hub s1) c)).
-    { destruct o as [k vs|full b fail core]; cbn [step] in E1.
-      - injection E1 as <- <- _. destruct Hm.
-      - destruct (run_events v c (s_hub s0) (s_job s0) full b fail core) as [evs ok] eqn:Er.
-        injection E1 as <- <- _. cbn [s_hub]. eapply run_events_main; eauto. }
-    clear - H1 E2. revert s1 s2 e2 E2 H1. induction ops as [|o ops IH]; intros s1 s2 e2 E2 H1; cbn [exec] in E2.
-    + now injection E2 as <- <-.
-    + destruct (step v c s1 o) as [[s1' e1'] ok1'] eqn:E1. destruct (exec v c s1' ops) as [s2' e2'] eqn:E2'.
-      injection E2 as <- <-. eapply IH; eauto.
-      destruct o as [k vs|full b fail core]; cbn [step] in E1.
-      * injection E1 as <- _ _. cbn [s_hub]. now apply main_ids_append.
-      * destruct (run_events v c (s_hub s1) (s_job s1) full b fail core) as [evs ok].
-        injection E1 as <- _ _. exact H1.
+    eapply Hmono; eauto. apply (proj1 (step_main _ _ _ _ _ _ _ E1)). exact Hm.
 Qed.
 
 
